@@ -341,7 +341,7 @@ func C10(c *run.Check) {
 		c.Exhaustive = false
 	}
 	// wide elements: 0..9 namespace declarations x 0..9 attributes x 4 kinds of
-	// content, below a parent declaring 0 or 3 prefixes and between siblings (the
+	// content, below a parent declaring 0 or 7 prefixes (among them xml, XML, xmlx) and between siblings (the
 	// BFS alphabet has only two attribute names and three prefixes)
 	if c.Violations() == 0 {
 		type wj struct{ k, m, kind, par int }
@@ -366,6 +366,9 @@ func C10(c *run.Check) {
 				for q := 0; q < 3; q++ {
 					tr = append(tr, impl.Event{K: impl.EvNS, Local: fmt.Sprint("i", q), Value: fmt.Sprint("urn:i", q)})
 				}
+				// prefixes with special-looking spellings are inherited like any other
+				// (a parser need not repeat the xml binding on every element)
+				tr = append(tr, impl.Event{K: impl.EvNS, Local: "xml", Value: "http://www.w3.org/XML/1998/namespace"}, impl.Event{K: impl.EvNS, Local: "XML", Value: "urn:upper"}, impl.Event{K: impl.EvNS, Local: "xmlx", Value: "urn:xmlx"}, impl.Event{K: impl.EvNS, Local: "é", Value: "urn:e"})
 			}
 			tr = append(tr, impl.Event{K: impl.EvStart, Local: "before"}, end, impl.Event{K: impl.EvStart, Local: "w"})
 			for q := 0; q < j.k; q++ {
